@@ -490,6 +490,61 @@ def make_exodus(oid, layout, tiers=("quick", "thorough")):
                       bounds="2 elements <= 4 nodes, 5 nodes at fixed rational unit vectors", tiers=tiers)
 
 
+def make_exodus_blocks(oid, quad_first, tiers=("quick", "thorough")):
+    """two element blocks (2 triangles, 1 quadrilateral) - 'one or several Exodus element blocks'"""
+    n_node = 5
+    from fractions import Fraction as Fr
+    UN = [(Fr(3, 5), Fr(4, 5), Fr(0)), (Fr(0), Fr(5, 13), Fr(12, 13)), (Fr(2, 3), Fr(1, 3), Fr(2, 3)), (Fr(-2, 7), Fr(3, 7), Fr(6, 7)), (Fr(1, 9), Fr(-4, 9), Fr(8, 9))]
+    X = [[float(u[a]) for u in UN] for a in range(3)]
+
+    def setup(ctx):
+        ctx.const("quad_first", quad_first)
+        tri, _ = C.sym_face_table(ctx, 2, 3, n_node, prefix="tri", sizes=[3, 3])
+        quad, _ = C.sym_face_table(ctx, 1, 4, n_node, prefix="quad", sizes=[4])
+        return tri, quad
+
+    def blocks(tri, quad):
+        b = [("TRI3", tri), ("SHELL4", quad)]
+        return list(reversed(b)) if quad_first else b
+
+    def run(ctx, inp):
+        tri, quad = inp
+        ds = symxr.Dataset()
+        ds["coord"] = symxr.DataArray(symnp.array(X), dims=["num_dim", "num_nodes"])
+        for k, (et, rows) in enumerate(blocks(tri, quad), 1):
+            ds[f"connect{k}"] = symxr.DataArray(C.sarr_int([[x + 1 for x in r] for r in rows]), dims=[f"num_el_in_blk{k}", f"num_nod_per_el{k}"], attrs={"elem_type": et})
+        Grid = world().get("uxarray.grid.grid", "Grid")
+        g = Grid.from_dataset(ds)
+        exp, sizes = [], []
+        for et, rows in blocks(tri, quad):
+            for r in rows:
+                exp.append(list(r) + [z3.IntVal(F)] * (4 - len(r)))
+                sizes.append(len(r))
+        _prove_table(ctx, "faces = all blocks in block order, 1-based -> 0-based, shorter elements padded with fill", g.face_node_connectivity.values,
+                     exp, lambda f, j: j < sizes[f], 0)
+
+    def replay(v):
+        import xarray as xr
+        import uxarray as ux
+        tri, quad = v["tri"], v["quad"]
+        ds = xr.Dataset()
+        ds["coord"] = xr.DataArray(np.array(X), dims=["num_dim", "num_nodes"])
+        exp = []
+        for k, (et, rows) in enumerate(blocks(tri, quad), 1):
+            ds[f"connect{k}"] = xr.DataArray(np.array([[x + 1 for x in r] for r in rows], dtype=np.int32), dims=[f"num_el_in_blk{k}", f"num_nod_per_el{k}"], attrs={"elem_type": et})
+            exp += [list(r) + [F] * (4 - len(r)) for r in rows]
+        try:
+            g = ux.Grid.from_dataset(ds)
+        except Exception as e:
+            return f"Exodus source with blocks {[(et, rows) for et, rows in blocks(tri, quad)]}: reader raised {type(e).__name__}: {str(e)[:120]}"
+        r = _check_faces(g, exp, n_node)
+        return (r + f" [Exodus blocks {[(et, [[x + 1 for x in r_] for r_ in rows]) for et, rows in blocks(tri, quad)]}]") if r else None
+
+    return Obligation(oid, f"Exodus dataset with two element blocks ({'quadrilaterals first' if quad_first else 'triangles first'}) -> Grid", setup, run, replay, exact=True,
+                      functions=["Grid.from_dataset", "io.utils._parse_grid_type", "_exodus._read_exodus", "connectivity._replace_fill_values", "coordinates._xyz_to_lonlat_deg"],
+                      bounds="blocks of 2 triangles and 1 quadrilateral, symbolic node ids < 5, 5 nodes at fixed rational unit vectors", tiers=tiers)
+
+
 def _c(v):
     if isinstance(v, sc.SymReal):
         return v.e.as_fraction()
@@ -600,7 +655,8 @@ def obligations(tier):
             obs.append(make_ugrid(f"C01.ugrid.si_{si}.fill_{fc}.{dt}", si, fc, dt, tiers=("quick", "thorough") if quick else ("thorough",)))
     obs += [make_esmf(f"C01.esmf.si_{si}", si) for si in ("absent", "0", "1")]
     obs += [make_mpas("C01.mpas.primal", False), make_mpas("C01.mpas.dual", True)]
-    obs += [make_exodus("C01.exodus.coord", "coord"), make_exodus("C01.exodus.coordxyz", "coordxyz")]
+    obs += [make_exodus("C01.exodus.coord", "coord"), make_exodus("C01.exodus.coordxyz", "coordxyz"),
+            make_exodus_blocks("C01.exodus.blocks.tri_quad", False), make_exodus_blocks("C01.exodus.blocks.quad_tri", True)]
     obs += [make_fill(f"C01.fill.{dt}.{fk}", dt, fk) for dt, fk in (("int64", "value"), ("int32", "value"), ("float64", "value"), ("int32", "none"))]
     obs += [make_sniff("C01.sniff")]
     return [o for o in obs if tier in o.tiers]
